@@ -4,9 +4,10 @@ import json, os, re, subprocess, sys, time, shutil, hashlib, random
 VERIF = os.path.dirname(os.path.dirname(os.path.abspath(__file__)))
 REPO = os.environ.get("GOML_REPO", "/repo")
 SPEC = os.path.join(VERIF, "spec")
-WORK = os.path.join(VERIF, "work")
-EVID = os.path.join(VERIF, "evidence")
-HARNESS = os.path.join(VERIF, "harness")
+ALT = REPO != "/repo"          # seeded-change evaluation: another checkout of goml, own work/evidence/harness copy
+WORK = os.environ.get("VERIF_WORK") or (os.path.join(VERIF, "work") if not ALT else "/tmp/verif-work-" + hashlib.md5(REPO.encode()).hexdigest()[:8])
+EVID = os.path.join(VERIF, "evidence") if not ALT else os.path.join(WORK, "evidence")
+HARNESS = os.path.join(VERIF, "harness") if not ALT else os.path.join(WORK, "harness")
 GV = os.path.join(HARNESS, "target", "debug", "gv")
 CLI_TARGET = os.path.join(WORK, "cli-target")
 CLI = os.path.join(CLI_TARGET, "debug", "compiler")
@@ -47,6 +48,14 @@ def build_harness():
     """Build gv from /repo's current working tree (hooks on: --cfg goml_verif via harness/.cargo/config.toml)."""
     if _built.get("gv"):
         return GV
+    if ALT:
+        src = os.path.join(VERIF, "harness")
+        os.makedirs(os.path.join(HARNESS, "src"), exist_ok=True)
+        os.makedirs(os.path.join(HARNESS, ".cargo"), exist_ok=True)
+        for f in os.listdir(os.path.join(src, "src")):
+            shutil.copy(os.path.join(src, "src", f), os.path.join(HARNESS, "src", f))
+        shutil.copy(os.path.join(src, ".cargo", "config.toml"), os.path.join(HARNESS, ".cargo", "config.toml"))
+        open(os.path.join(HARNESS, "Cargo.toml"), "w").write(open(os.path.join(src, "Cargo.toml")).read().replace("/repo/", REPO.rstrip("/") + "/"))
     lock = os.path.join(HARNESS, "Cargo.lock")
     if not os.path.exists(lock):
         shutil.copy(os.path.join(REPO, "Cargo.lock"), lock)
